@@ -110,6 +110,10 @@ func Sign(sk *ecdsa.PrivateKey, bts []byte) ([]byte, error) {
 }
 
 func Verify(pk *ecdsa.PublicKey, bts []byte, signature []byte) error {
+	// E.g. an issuer public key without revocation support has no ECDSA key
+	if pk == nil {
+		return errors.New("no public key to verify the signature with")
+	}
 	// A signature is a SEQUENCE of exactly two integers. Unmarshaling into a
 	// fixed two-field struct makes asn1 enforce that shape, so R and S are
 	// always present once Unmarshal returns without error.
